@@ -15,7 +15,10 @@ reference model harness/models/gel.py, checking after every operation:
   F  graph.enabled=false: after every op the whole state is bit-identical to the initial one and `graph` is not
      created.
 
-Sub-checks share the history format, so every replay file is re-executed by `replay_history`.
+  G  ("turns") full orchestrator turns: state['graph'] after each turn == the same operations applied through the
+     direct API (itself checked by A-E); gate off: no state['graph'], no gel.jsonl.
+
+Sub-checks machine/observe/tick/maint/gate share the history format (`replay_history`); turns has `replay_turns`.
 """
 from __future__ import annotations
 
@@ -42,8 +45,10 @@ RULE = ("Histories over {observe(items), tick(dt), merge pass/direct, split pass
         "by the floor AND >=1 effective permuted observation (non-identity permutation, >=2 items used); observe = "
         ">=1 pair updated, non-identity permutation and a tie / cap truncation / top-k truncation / threshold filter; "
         "tick = >=1 edge dropped and >=1 edge kept-and-decayed; maint = >=1 merge or split record applied and >=1 "
-        "promotion applied; gate = >=3 ops incl. an observation that would have paired items and a direct apply. "
-        "Distinct = digest of the whole history.")
+        "promotion applied; gate = >=3 ops incl. an observation that would have paired items and a direct apply; "
+        "turns (1-3 real Orchestrator.run_turn turns over 2-6 generated episodes, real T2 scores, maintenance flags "
+        "random) = gate on and >=1 pair updated, or gate off and T2 returned >=2 items. "
+        "Distinct = digest of the whole history / case.")
 ASSUMPTIONS = [
     "ids do not contain the key separator '→' (two different pairs could otherwise share a key); config numbers are "
     "finite (non-finite values accepted by one-sided validator tests are C14's finding, e.g. alpha=inf makes NaN weights)",
@@ -830,6 +835,110 @@ sub_maint = _sub("maint", hist_maint)
 sub_gate = _sub("gate", hist_gate)
 
 
+# ----------------------------------------------------------------------------------- orchestrator level ("turns")
+
+TEXTS = ["apple pear", "apple", "apple pear kiwi", "plum", "kiwi plum", "pear", "Äpfel apple"]
+
+
+@st.composite
+def turn_cases(draw):
+    g = draw(graph_settings(enabled=draw(_pick(True, True, True, False)), maint=True))
+    for sec in ("merge", "split", "promotion"):
+        g[sec]["enabled"] = draw(st.booleans())
+    return {"graph": g, "episodes": draw(st.lists(st.sampled_from(TEXTS), min_size=2, max_size=6)),
+            "turns": draw(st.lists(st.sampled_from(TEXTS), min_size=1, max_size=3))}
+
+
+def check_turns(case, rec=None):
+    """Real Orchestrator.run_turn turns (real T1..T4/apply, in-memory index) versus the same GEL operations applied
+    through the direct API in the order the orchestrator documents: observe(t2.retrieved) -> tick(1) -> merge pass ->
+    split pass -> promotion pass (clusters = merge candidates).  Gate off: no state['graph'], no gel.jsonl."""
+    import os
+    import clematis.engine.orchestrator.core as core
+    from clematis.memory.index import InMemoryIndex
+    from clematis.adapters.embeddings import DeterministicEmbeddingAdapter
+    from clematis.engine.types import EpisodeRef
+    from configs.validate import ConfigError
+    from harness.world import sandbox, validated_cfg, make_ctx, build_store, reset_engine_globals
+
+    g = case["graph"]
+    shadow = World({"op": "init", "graph": g, "ctx": "ns", "state": "dict", "edges": [], "has_graph": False}, rec)
+    if shadow.rejected:
+        return
+    seen = []
+    real_obs = core.gel_observe
+
+    def spy(ctx, state, items, **kw):
+        seen.append(list(items))
+        return real_obs(ctx, state, items, **kw)
+
+    paired = 0
+    with sandbox("vx_c18_") as d:
+        reset_engine_globals()
+        cfg = validated_cfg({"graph": copy.deepcopy(g), "t4": {"snapshot_dir": os.path.join(d, "snap")}})
+        idx = InMemoryIndex()
+        enc = DeterministicEmbeddingAdapter(dim=32)
+        for i, txt in enumerate(case["episodes"]):
+            idx.add({"id": f"ep{i}", "owner": "A", "text": txt, "vec_full": enc.encode([txt])[0],
+                     "ts": "2025-06-15T00:00:00Z", "aux": {}})
+        state = {"store": build_store({}), "active_graphs": [], "mem_index": idx, "_boot_loaded": True, "version_etag": "0"}
+        core.gel_observe = spy
+        try:
+            for t, text in enumerate(case["turns"], start=1):
+                del seen[:]
+                core.Orchestrator().run_turn(make_ctx(cfg, agent="A", turn_id=t), state, text)
+                if not g["enabled"]:
+                    if "graph" in state:
+                        raise Violation(f"graph.enabled=false: turn {t} created state['graph'] = {state['graph']}", case,
+                                        "gate-creates-graph")
+                    if os.path.exists(os.path.join(d, "logs", "gel.jsonl")):
+                        raise Violation(f"graph.enabled=false: turn {t} wrote gel.jsonl", case, "gate-log")
+                    continue
+                if len(seen) != 1:
+                    raise Violation(f"turn {t}: the orchestrator observed retrieval {len(seen)} times", case, "turn-observe-count")
+                if not all(isinstance(r, EpisodeRef) for r in seen[0]):
+                    raise RuntimeError(f"orchestrator passes items of an unexpected shape: {seen[0][:2]}")
+                items = [{"shape": "ref", "id": r.id, "score": float(r.score)} for r in seen[0]]
+                ops = [{"op": "observe", "items": items, "perm": list(range(len(items)))[::-1], "turn": t, "container": "list"},
+                       {"op": "tick", "dt": 1, "turn": t}]
+                if g["merge"]["enabled"]:
+                    ops.append({"op": "merge_pass"})
+                if g["split"]["enabled"]:
+                    ops.append({"op": "split_pass"})
+                if g["promotion"]["enabled"] and g["merge"]["enabled"]:
+                    ops.append({"op": "promote_pass"})
+                try:
+                    for op in ops:
+                        shadow.apply(op)
+                except Violation as v:
+                    raise Violation(f"turn {t} (direct replay of the turn's GEL operations): {v.message}", case, v.sig)
+                if state.get("graph") != shadow.graph():
+                    raise Violation(f"turn {t}: the orchestrator left graph {_brief(state.get('graph'))} / meta "
+                                    f"{(state.get('graph') or {}).get('meta')}, the same operations through the API give "
+                                    f"{_brief(shadow.graph())} / meta {(shadow.graph() or {}).get('meta')}", case, "turn-diverges")
+        finally:
+            core.gel_observe = real_obs
+        if not g["enabled"]:
+            with open(os.path.join(d, "logs", "t2.jsonl"), "r", encoding="utf-8") as f:
+                paired = max(int(json.loads(ln).get("k_returned", 0)) for ln in f if ln.strip())
+    if rec is not None:
+        f = shadow.flags
+        nt = bool(f.get("obs_effective")) if g["enabled"] else paired >= 2
+        labels = sorted(k for k in f if not k.startswith("op_")) + ["enabled" if g["enabled"] else "disabled"] + \
+                 [f"{sec}_on" for sec in ("merge", "split", "promotion") if g[sec]["enabled"] and g["enabled"]]
+        rec.case(nontrivial=nt, dig=digest(case) if nt else None, labels=labels,
+                 sample={"episodes": case["episodes"], "turns": case["turns"], "flags": dict(f),
+                         "edges_end": {k: v[2] for k, v in list(shadow.real_view().items())[:6]}} if nt else None)
+
+
+def sub_turns(rec, seed, shard, nshards, n=100, shrink=True):
+    run_hypothesis(rec, seed, turn_cases(), lambda c: check_turns(c, rec), max_examples=n, shrink=shrink, name="turns")
+
+
+def replay_turns(case):
+    check_turns(_fix_floats(case), None)
+
+
 def _fix_floats(x):
     if isinstance(x, dict):
         if set(x) == {"__float__"}:
@@ -881,4 +990,5 @@ SUBCHECKS = [
     Sub("maint", sub_maint, quick={"n": 300}, thorough={"n": 5000}, shards_quick=2, shards_thorough=8,
         replay=replay_history),
     Sub("gate", sub_gate, quick={"n": 300}, thorough={"n": 5000}, shards_quick=2, shards_thorough=8, replay=replay_history),
+    Sub("turns", sub_turns, quick={"n": 120}, thorough={"n": 1500}, shards_quick=2, shards_thorough=8, replay=replay_turns),
 ]
